@@ -2,7 +2,8 @@
    (13 op …) with op 1 reorder 2 transpose 3 reorder_mut 4 transpose_mut 5 reshape_mut 6 reshape_owned
    7 rename 8 map 9 map_with_index 10 map_mut 11 map_mut_with_index 12 elementwise
    13 elementwise_with_index 14 first 15 scalar/into_scalar 16 into_matrix 17 Matrix::into_tensor
-   20 eq/similar (both argument orders).  `form` 0 = Tensor method, 1 = TensorView method over a
+   20 eq/similar (both argument orders)  21 eq/similar over f64 with NaN elements (every form,
+   same-object operands included; only booleans are compared).  `form` 0 = Tensor method, 1 = TensorView method over a
    source term ((0 shape data) | (1 src names) reverse | (2 src ranges) range | (3 src names)
    access | (4 src names) transpose | (5 src masks) mask | (6 src names) rename).  See coq/theories/Run/RunC13.v for the exact layout."""
 import itertools, random
@@ -98,6 +99,14 @@ def gen(tier, rng):
             for dims in (names, names[::-1]):
                 yield sx([13, 3, base, dims]); yield sx([13, 4, base, dims])
                 yield sx([13, 1, 0, base, dims]); yield sx([13, 2, 1, base, dims])
+    # large squares: the in-place branch for side lengths well beyond any tile / block size
+    for n in ((33, 40, 64, 65) if quick else (33, 34, 40, 63, 64, 65, 96, 100, 129)):
+        names = rng.sample(range(8), 2)
+        base = [0, tshape([n, n], names), [rng.randrange(-999, 1000) for _ in range(n * n)]]
+        yield sx([13, 3, base, names[::-1]]); yield sx([13, 4, base, names[::-1]])
+        yield sx([13, 3, base, names])
+        base2 = [0, tshape([n, n], names), [i for i in range(n * n)]]
+        yield sx([13, 4, base2, names[::-1]])
     # D = 5, 6 sampled
     for D in (5, 6):
         for _ in range(40 if quick else 400):
@@ -236,6 +245,18 @@ def gen(tier, rng):
             yield sx([13, 17, r, c, data, 0, 1])
             yield sx([13, 17, r, c, data, 2, 2])
 
+    # ---------------- equality / similarity with elements that are not equal to themselves (NaN)
+    for lens in shapes:
+        if len(lens) == 4 and max(lens) > 2:
+            continue
+        n = elements(lens)
+        sh = tshape(lens)
+        data = [10 + i for i in range(n)]
+        yield sx([13, 21, sh, data, []])
+        yield sx([13, 21, sh, data, [rng.randrange(n)]])
+        if n > 1:
+            yield sx([13, 21, sh, data, [0]]); yield sx([13, 21, sh, data, [n - 1]])
+            yield sx([13, 21, sh, data, sorted(rng.sample(range(n), min(n, 3)))])
     # ---------------- equality / similarity
     for lens in shapes:
         D = len(lens)
